@@ -293,6 +293,18 @@ def run_flags(res):
                           {"row": row.lib})
         if cls._framesize != row.width if hasattr(cls, "_framesize") else False:
             res.violation(f"C03/flag/width/{row.lib}", f"{row.name}: frame width {cls._framesize} != {row.width}", {"row": row.lib})
+    # classes an application derives and completes afterwards: is_query follows the response attribute as it is now
+    DerivedDTR = type("VendorRegister", (gg.DTR0,), {"__module__": "application"})
+    res.evaluations += 1
+    res.hit("late_response_checked")
+    before = bool(DerivedDTR(1).is_query)
+    DerivedDTR.response = command.NumericResponse
+    after_cls = bool(DerivedDTR(1).is_query)
+    obj = gg.DTR1(3)
+    inst_before = bool(obj.is_query)
+    if before is not False or after_cls is not True or inst_before is not False:
+        res.violation("C03/flag/is_query/response-assigned-later", f"a class derived from DTR0: is_query {before} before and {after_cls} after its "
+                      "response class was assigned (expected False, then True)", {"row": "application.VendorRegister"})
     # is_query consistent with the answer column, on an instance
     from dali import address
     r = rng(0, "C03", "flags")
@@ -314,7 +326,7 @@ def run_flags(res):
         gg.UnknownGearCommand, dg.UnknownDeviceCommand}
     for c in command.Command._commands:
         res.hit("classes_claimed")
-        if c in other:
+        if c in other or c.__module__ == "application":
             continue
         n = len(claimed.get(c, []))
         if n == 0:
